@@ -146,6 +146,13 @@ pub trait ExpressionReducer {
 
     fn visit_assignment(&mut self, a: Assignment) -> Result<Assignment, LintErrorPos> {
         let (name, v) = a.into();
+        // the subscripts of the target are expressions too
+        let name = match name {
+            Expression::ArrayElement(..) | Expression::Property(..) => {
+                self.visit_expression(name)?
+            }
+            _ => name,
+        };
         Ok(Assignment::new(name, self.visit_expression_pos(v)?))
     }
 
